@@ -24,6 +24,13 @@ import Bnum.Props.C14
 #print axioms Bnum.C14.uintFromFloat_cases
 #print axioms Bnum.C14.uintFromFloat_subnormal
 #print axioms Bnum.C14.from_f32_regression
+#print axioms Bnum.C14.floatFromUint_specD
+#print axioms Bnum.C14.floatFromInt_specD
+#print axioms Bnum.C14.uintFromFloat_specD
+#print axioms Bnum.C14.intFromFloat_specD
+#print axioms Bnum.FltD.castFloatFromUintD_refines
+#print axioms Bnum.FltD.castUintFromFloatD_refines
+#print axioms Bnum.FltD.bintFromFloat_refines
 #print axioms Bnum.Flt.decode_encode
 #print axioms Bnum.Flt.valid_f32
 #print axioms Bnum.Flt.valid_f64
